@@ -33,6 +33,9 @@ impl Group for PipeGroup {
         let scheme = match rng.below(4) { 0 => DEFAULT_SCHEME.as_bytes().to_vec(), 1 => b"stop=0".to_vec(), _ => gen_scheme(rng, false) };
         let seed = rng.next() % 1_000_000;
         let mut lines = vec![format!("pipe reset {} {} md5={}", hex(&scheme), seed, md5_hex(&scheme))];
+        // back-pressure: transports that accept only a few bytes per write call (and return Pending in between)
+        if rng.chance(1, 3) { lines.push(format!("pipe c shortw {}", rng.pick(&[1u32, 7, 17, 64, 1000]))); }
+        if rng.chance(1, 4) { lines.push(format!("pipe s shortw {}", rng.pick(&[1u32, 7, 17, 64, 1000]))); }
         let nstreams = rng.range(1, 4);
         let noisy = rng.chance(1, 3);
         let mut opened = 0u64;
@@ -90,6 +93,8 @@ impl Group for PipeGroup {
             let mut written: BTreeMap<(u8, u32), Vec<u8>> = BTreeMap::new();
             let mut readb: BTreeMap<(u8, u32), Vec<u8>> = BTreeMap::new();
             let mut faults = false;
+            // ids opened by the client through `open_stream` (only those are streams of the pipe)
+            let mut opened: Vec<u32> = vec![];
             for line in &case.lines {
                 let toks: Vec<&str> = line.split_whitespace().collect();
                 if toks.first() != Some(&"pipe") { out.obs.push("bad-op".into()); continue; }
@@ -144,6 +149,7 @@ impl Group for PipeGroup {
                         // O: after a full drain every stream has delivered exactly what was submitted
                         if !faults {
                             for ((d, sid), w) in &written {
+                                if !opened.contains(sid) { continue; }
                                 let r = readb.get(&(*d, *sid)).cloned().unwrap_or_default();
                                 if r != *w {
                                     let first = r.iter().zip(w.iter()).position(|(a, b)| a != b).unwrap_or(std::cmp::min(r.len(), w.len()));
@@ -159,6 +165,9 @@ impl Group for PipeGroup {
                         let o = n.op(rest).await;
                         let dirbit = if *who == "c" { 0u8 } else { 1u8 }; // direction of data *written* by this node
                         match rest {
+                            ["open"] if o.starts_with("ok") => {
+                                if let Some(p) = o.split("sid=").nth(1) { if let Ok(v) = p.split(' ').next().unwrap().parse::<u32>() { opened.push(v); } }
+                            }
                             ["write", sid, hx] if o.starts_with("ok") => {
                                 let sid: u32 = sid.parse().unwrap();
                                 // only ids the client opened count as streams
